@@ -71,6 +71,39 @@ Definition run (args : list bytes) : bytes :=
             end
         | _, _ => ERR_BADCASE
         end
+      (* alloc/allocd: rt/dec with the allocation monitor; the model has no allocation, "over=0" is the claim
+         that no ReadData call allocates more than the chunk it announces (observed, not proved) *)
+      else if beq op (bs "alloc") then
+        match list_parse item_parse a, list_parse script_entry_parse b with
+        | Some its, Some sc =>
+            match encode_items its with
+            | Some s => result_print (read_stream s sc) ++ bs " over=0"
+            | None => bs "E:toolong"
+            end
+        | _, _ => ERR_BADCASE
+        end
+      else if beq op (bs "allocd") then
+        match payload_parse a, list_parse script_entry_parse b with
+        | Some s, Some sc => result_print (read_stream s sc) ++ bs " over=0"
+        | _, _ => ERR_BADCASE
+        end
+      else ERR_BADCASE
+  | [op; a; b; c] =>
+      (* pc: client/lib's encapsulationPacketConn.  WriteTo of every data item gives the wire; ReadFrom over the
+         encoding of ALL items (paddings included) under the reader script, into a buffer of c bytes *)
+      if beq op (bs "pc") then
+        match list_parse item_parse a, list_parse script_entry_parse b, dec_parse_nat c with
+        | Some its, Some sc, Some n =>
+            let only_data := filter (fun i => match i with Data _ => true | Pad _ => false end) its in
+            match encode_items only_data, encode_items its with
+            | Some w, Some s =>
+                let r := read_stream s sc in
+                bs "wire=" ++ hex_encode w ++ bs " packets=" ++ list_print (map (fun d => 120 :: hex_encode (firstn n d)) (fst r))
+                   ++ bs " err=" ++ err_print (snd r)
+            | _, _ => bs "E:toolong"
+            end
+        | _, _, _ => ERR_BADCASE
+        end
       else ERR_BADCASE
   | _ => ERR_BADCASE
   end.
